@@ -244,13 +244,25 @@ int close(int fd) {
  * A blocking flock() would park the writer inside the kernel where the explorer cannot see it.  In STEP mode the
  * lock is polled: every failed attempt is a scheduling point "flock-wait", so a writer waiting for a lock is a
  * visible (disabled) state instead of a hang. */
-int flock(int fd, int op) {
+static int flock_inner(int fd, int op) {
     REAL(flock);
-    if (g_busy || !(g_mode & 8) || (op & LOCK_NB) || !(op & (LOCK_EX | LOCK_SH))) return real_flock(fd, op);
+    if (!(g_mode & 8) || (op & LOCK_NB) || !(op & (LOCK_EX | LOCK_SH))) return real_flock(fd, op);
     while (1) {
         int r = real_flock(fd, op | LOCK_NB);
         if (r == 0) return 0;
         if (errno != EWOULDBLOCK) return r;
         step_point("flock-wait", "");
     }
+}
+/* flock on a descriptor opened under the sandbox is an in-scope call like any other: counted, logged, a fault and kill point
+ * (found missing by the strace cross-check of vt/fsshim/selftest.py) */
+int flock(int fd, int op) {
+    REAL(flock);
+    if (g_busy || !g_mode) return real_flock(fd, op);
+    if (!in_scope_fd(fd)) return flock_inner(fd, op);
+    char a[16]; snprintf(a, sizeof a, "%d", op);
+    long k; char nb[32]; const char *nm = fdname(fd, nb, sizeof nb);
+    if (gate(&k, "flock", nm, 0)) { logline(k, "flock", nm, a, -1, errno); return -1; }
+    long r = flock_inner(fd, op); int e = errno; logline(k, "flock", nm, a, r, r < 0 ? e : 0); errno = e;
+    return (int)r;
 }
